@@ -16,7 +16,8 @@ pub struct F {
     pub case: Value,
 }
 
-fn run_case(route: &str, target: usize, with_head: bool, order: &[usize], sse: bool, omit_ctx: bool) -> (Vec<F>, String) {
+#[allow(clippy::too_many_arguments)]
+fn run_case(route: &str, target: usize, with_head: bool, order: &[usize], sse: bool, omit_ctx: bool, future_head: bool) -> (Vec<F>, String) {
     let mut fs = vec![];
     let dir = common::scratch_dir("c06");
     let server = Server::start(dir);
@@ -26,10 +27,16 @@ fn run_case(route: &str, target: usize, with_head: bool, order: &[usize], sse: b
     let b = Scru128Id::from_u128(a.to_u128() + 1);
     store.insert_frame(&Frame::builder("xs.context", ZERO_CONTEXT).id(b).build()).unwrap();
     let ctxs = [ZERO_CONTEXT, a, b];
-    let case = json!({"route": route, "target_ctx": target, "head_exists": with_head, "foreign_order": order, "sse": sse, "context_param_omitted": omit_ctx});
+    let case = json!({"route": route, "target_ctx": target, "head_exists": with_head, "foreign_order": order, "sse": sse, "context_param_omitted": omit_ctx, "head_imported_with_an_id_ahead_of_the_clock": future_head});
     if with_head {
-        for c in &ctxs {
-            store.append(Frame::builder("a", *c).build()).unwrap();
+        for (i, c) in ctxs.iter().enumerate() {
+            if future_head {
+                // the current head arrived by import from a machine whose clock runs ahead
+                let id = Scru128Id::from_u128(scru128::new().to_u128() + (3_600_000u128 << 80) + i as u128);
+                store.insert_frame(&Frame::builder("a", *c).id(id).build()).unwrap();
+            } else {
+                store.append(Frame::builder("a", *c).build()).unwrap();
+            }
         }
     }
     let tctx = ctxs[target];
@@ -110,6 +117,9 @@ pub fn cases() -> Vec<Value> {
                         if route == "head-follow" && target == 0 {
                             v.push(json!({"route": route, "target": target, "with_head": with_head, "order": order, "sse": sse, "omit_ctx": true}));
                         }
+                        if with_head && order[0] == others[0] {
+                            v.push(json!({"route": route, "target": target, "with_head": with_head, "order": order, "sse": sse, "omit_ctx": false, "future_head": true}));
+                        }
                     }
                 }
             }
@@ -124,7 +134,7 @@ pub fn run_case_json(c: &Value) -> (Vec<F>, String) {
         return (fs, format!("scripts:{}", n));
     }
     let order: Vec<usize> = serde_json::from_value(c["order"].clone()).unwrap();
-    run_case(c["route"].as_str().unwrap(), c["target"].as_u64().unwrap() as usize, c["with_head"].as_bool().unwrap(), &order, c["sse"].as_bool().unwrap(), c["omit_ctx"].as_bool().unwrap_or(false))
+    run_case(c["route"].as_str().unwrap(), c["target"].as_u64().unwrap() as usize, c["with_head"].as_bool().unwrap(), &order, c["sse"].as_bool().unwrap(), c["omit_ctx"].as_bool().unwrap_or(false), c["future_head"].as_bool().unwrap_or(false))
 }
 
 pub fn worker() {
